@@ -49,6 +49,29 @@ SUBJECTS = {
 }
 # subjects whose alphabet contains the allocator calls that move content (reported under one key)
 GROW_SUBJECTS = ["calpoolgrow", "calbumpgrow"]
+# The ONLY findings that may carry a key (known_findings.json matches by key): each with its exact preconditions.
+#  * a table row failing pi_free is keyed only for the type and the field set recorded here; a further failing field of the same
+#    type, or any other type, is reported without a key
+#  * a relocation anomaly is keyed only if it is a FAULT of the relocated phase, after at least one relocation, of a grow subject,
+#    while executing grow(Back) (pool) / grow(Front|Back) (bump) on a previously allocated chunk.  Everything else -- any divergence,
+#    any fault at another call, any fault of the unrelocated phase, any anomaly of any other subject, any model mismatch -- has no key.
+KEYED_PI_FREE_FIELDS = {"iceoryx2_bb_threadsafe::trigger_queue::TriggerQueue": {"queue", "free_slots", "used_slots"}}
+GROW_KEY = "shm-allocator:grow-dereferences-creator-address"
+GROW_OPS = {"calpoolgrow": ("GrowBack",), "calbumpgrow": ("GrowBack", "GrowFront")}
+
+
+def is_recorded_grow_fault(subject, line):
+    if subject not in GROW_OPS or not line.startswith("FAULT "):
+        return False
+    kv = parse_kv(line)
+    ops = re.findall(r"[A-Za-z]+(?:\([^)]*\))?", kv.get("ops", "[]")[1:-1])
+    try:
+        at, nrel = int(kv.get("at_op", "-1")), int(kv.get("relocations_so_far", "0"))
+    except ValueError:
+        return False
+    if kv.get("phase") != "reloc" or kv.get("signal") != "11" or nrel < 1 or not (1 <= at <= len(ops)):
+        return False
+    return ops[at - 1].startswith(GROW_OPS[subject]) and any(o.startswith("Alloc(") for o in ops[:at - 1])
 # planted position-dependent structures of the harness itself (src/selftest.rs): must be detected on every run
 SELFTEST = {"selftest-fault": ("FAULT", "2"), "selftest-diverge": ("DIVERGE", "1")}
 RANDOM_CASES = (64, 1600)      # per subject: quick, thorough
@@ -175,7 +198,17 @@ def report_table(ctx, tab, proof_ok):
         by_row.setdefault(q, []).append(f)
     ctx.cov["exceptions_with_justification"] = ["%s.%s" % e for e in r["exceptions"]]
     ctx.cov["rows_not_address_free"] = by_row
+    # unkeyed rows first, so that a recorded finding can never crowd out a new one
+    parts = []
     for q, fields in sorted(by_row.items()):
+        rec = KEYED_PI_FREE_FIELDS.get(q, set())
+        new = [f for f in fields if f not in rec]
+        old = [f for f in fields if f in rec]
+        if new:
+            parts.append((0, q, new, None))
+        if old:
+            parts.append((1, q, old, "pi-free:" + q))
+    for _, q, fields, key in sorted(parts, key=lambda x: (x[0], x[1])):
         row = rows.get(q, {})
         srcs = {f["name"]: f.get("src", "?") for f in row.get("fields", [])}
         ctx.violation("type placed in shared memory is not address free: %s (%s) fields %s" % (
@@ -184,7 +217,7 @@ def report_table(ctx, tab, proof_ok):
              "fields": [{"name": f, "type": srcs.get(f)} for f in fields],
              "listed_in_coq_known_not_pi_free": q in r["known"],
              "how_to_rerun": "./check C14 quick   (row of /verif/build/c14/shm.json; Coq: Eval vm_compute in failing shm_tables exceptions)"},
-            key="pi-free:" + q)
+            key=key)
     unlisted = [q for q in by_row if q not in r["known"]]
     stale_known = [q for q in r["known"] if q not in by_row]
     if not proof_ok:
@@ -306,7 +339,7 @@ def part_g3(ctx, tab):
                 diverges.append((s, l, argv))
             elif l.startswith("DONE"):
                 done = True
-            elif l.startswith("GIVING-UP") and s not in GROW_SUBJECTS:
+            elif l.startswith("GIVING-UP"):
                 crashed.append((s, " ".join(argv), rc, l))
         if model:
             got = False
@@ -321,7 +354,7 @@ def part_g3(ctx, tab):
                     model_mm.append((s, l, argv))
             if not got:
                 crashed.append((s, " ".join(argv), rc, out[-600:]))
-        if not done and s not in GROW_SUBJECTS:
+        if not done:
             crashed.append((s, " ".join(argv), rc, (rep[-400:] + " | " + out[-300:])))
     ctx.cov["harness_selftest"] = {s: "%d x %s on the planted position-dependent structure" % (n, SELFTEST[s][0]) for s, n in selftest_seen.items()}
     for s in SELFTEST:
@@ -347,19 +380,18 @@ def part_g3(ctx, tab):
     def hist_len(line):
         m = re.search(r"ops=\[(.*?)\] phase", line)
         return len(m.group(1)) if m else 0
-    grow = [f for f in faults + diverges if f[0] in GROW_SUBJECTS]
-    other = [f for f in faults + diverges if f[0] not in GROW_SUBJECTS]
+    grow = [f for f in faults + diverges if is_recorded_grow_fault(f[0], f[1])]
+    other = [f for f in faults + diverges if not is_recorded_grow_fault(f[0], f[1])]
     seen = set()
     for s, line, argv in sorted(other, key=lambda f: hist_len(f[1])):
-        if s in seen or len(seen) >= 6:
+        if s in seen or len(seen) >= 8:
             continue
         seen.add(s)
         kv = parse_kv(line)
         kind = "faults on a stale absolute address" if line.startswith("FAULT") else "diverges from the unrelocated run"
         ctx.violation("%s: relocated history %s: %s" % (NAMES.get(s, s), kind, line[:400]),
                       {"structure": NAMES.get(s, s), "report_line": line, "case_id": kv.get("id"), "plan": kv.get("plan"),
-                       "how_to_rerun": "%s one %s %s %s" % (exe, s, kv.get("id"), kv.get("plan", "default"))},
-                      key="reloc:%s" % s)
+                       "how_to_rerun": "%s one %s %s %s" % (exe, s, kv.get("id"), kv.get("plan", "default"))})
     if grow:
         shortest = sorted(grow, key=lambda f: hist_len(f[1]))
         exs = {}
@@ -372,8 +404,8 @@ def part_g3(ctx, tab):
                        "bump_allocator.rs InitializedBumpAllocator::grow (both placements when the chunk is not the last one, Back always)",
                        "report_lines": list(exs.values()), "occurrences": len(grow),
                        "how_to_rerun": "%s one %s %s" % (exe, shortest[0][0], kv.get("id"))},
-                      key="shm-allocator:grow-dereferences-creator-address")
-    ctx.cov["grow_probe"] = {"faults_or_divergences": len(grow), "subjects": GROW_SUBJECTS}
+                      key=GROW_KEY)
+    ctx.cov["grow_probe"] = {"recorded_grow_faults": len(grow), "other_anomalies_of_grow_subjects": sum(1 for f in other if f[0] in GROW_SUBJECTS), "subjects": GROW_SUBJECTS}
     seen = set()
     for s, line, argv in model_mm:
         if s in seen:
@@ -382,7 +414,7 @@ def part_g3(ctx, tab):
         case_no = int(line.split("case=")[1].split()[0])
         hist = vlib.extract_case(argv, driver, case_no)
         ctx.violation("%s: relocated run differs from the extracted Coq model: %s" % (NAMES.get(s, s), line[:300]),
-                      {"history": hist[:60], "harness_cmd": " ".join(argv), "how_to_rerun": " ".join(argv) + " | " + driver}, key="reloc-model:%s" % s)
+                      {"history": hist[:60], "harness_cmd": " ".join(argv), "how_to_rerun": " ".join(argv) + " | " + driver})
     samples = []
     for s, mode, argv, model, rc, out, rep, wall in results:
         if s == "slotmap" and mode == "exh" and not samples:
